@@ -187,20 +187,6 @@ func main() {
 		}
 	}()
 
-	if *replay != "" {
-		if *tapemap != "" {
-			f, err := os.OpenFile(*tapemap, os.O_RDWR|os.O_CREATE|os.O_TRUNC, 0o644)
-			if err == nil {
-				const size = 8 << 20
-				f.Truncate(size)
-				if m, err := syscall.Mmap(int(f.Fd()), 0, size, syscall.PROT_READ|syscall.PROT_WRITE, syscall.MAP_SHARED); err == nil {
-					mirrorBuf = m
-				}
-			}
-		}
-		doReplay(p, *replay, *shrink, *out, *budget)
-		return
-	}
 	if *known != "" {
 		if b, err := os.ReadFile(*known); err == nil {
 			var ff struct {
@@ -218,6 +204,20 @@ func main() {
 		}
 	}
 
+	if *replay != "" {
+		if *tapemap != "" {
+			f, err := os.OpenFile(*tapemap, os.O_RDWR|os.O_CREATE|os.O_TRUNC, 0o644)
+			if err == nil {
+				const size = 8 << 20
+				f.Truncate(size)
+				if m, err := syscall.Mmap(int(f.Fd()), 0, size, syscall.PROT_READ|syscall.PROT_WRITE, syscall.MAP_SHARED); err == nil {
+					mirrorBuf = m
+				}
+			}
+		}
+		doReplay(p, *replay, *shrink, *out, *budget)
+		return
+	}
 	var sf *os.File
 	if *status != "" {
 		var err error
@@ -344,6 +344,12 @@ func doReplay(p *core.Property, path string, shrink bool, out string, budget int
 	}
 	if rf.Tier == "" {
 		rf.Tier = "quick"
+	}
+	// A replay treats listed known findings like the sweep does (count,
+	// resynchronise, go on), so that a violation found behind one reproduces —
+	// except when the file being replayed is the witness of that very finding.
+	if core.KnownKeys[rf.Class+"|"+rf.Key] {
+		core.KnownKeys = map[string]bool{}
 	}
 	tp := rf.Tape
 	if shrink && len(tp) > 0 {
